@@ -261,7 +261,7 @@ Theorem C05_judge_rep5_sound : forall ty nr ns f gp rmn o,
 Proof. exact rep5_sound. Qed.
 Print Assumptions C05_judge_rep5_sound.
 
-(* build (Outcome in the building state): C05_roots_signed (iff) and the invariant of C05_no_sigs_without_roots on the implementation's outcome; premise of model_passes: the previous outcome satisfies the invariant *)
+(* build (Outcome in the building state): C05_roots_signed (iff), C05_reported_roots_sorted (order clause, below) and the invariant of C05_no_sigs_without_roots on the implementation's outcome; premise of model_passes: the previous outcome satisfies the invariant *)
 Theorem C05_judge_build_model_passes : forall max n prev q co,
   sigs_imply_roots prev -> build_ok (max, n, prev, q, co) (build_model (max, n, prev, q, co)) = true.
 Proof. exact build_model_passes. Qed.
@@ -279,6 +279,37 @@ Theorem C05_judge_build_sound : forall max n prev q co o,
        (o_roots o = [] -> o_sigs o = [] /\ o_type o = T_empty)).
 Proof. exact build_sound. Qed.
 Print Assumptions C05_judge_build_sound.
+
+(* build, order of the reported roots: C05_reported_roots_sorted with the implementation's outcome in the place of
+   build_report's - build_ok demands the reported roots strictly ascending by chain selector whenever the agreed roots
+   have one root per chain (with or without bundle).  The model's outcome passes by C05_reported_roots_sorted
+   (C05_judge_build_model_passes, premises unchanged). *)
+Theorem C05_judge_build_sound_order : forall max n prev q co o c,
+  build_ok (max, n, prev, q, co) o = true ->
+  next_state (o_type prev) = Building -> q_retry q = false -> co = Some c ->
+  NoDup (map root_chain (c_roots c)) ->
+  KSorted root_chain (o_roots o) /\ NoDup (map root_chain (o_roots o)).
+Proof. exact build_sound_order. Qed.
+Print Assumptions C05_judge_build_sound_order.
+
+(* the property before the order clause accepted roots reported in descending chain order and a chain reported twice;
+   the strengthened one rejects both and accepts the model's outcome (hypotheses of the theorem above satisfied:
+   building round, no retry, agreed roots of chains 7 and 8) *)
+Theorem C05_judge_build_before_weak :
+  let c := mkCons [(7, (10, 12), 5, 99); (8, (1, 2), 6, 98)]%N [] [] cfg_empty in
+  let q := mkQuery false (Some (mkBundle [SigOk 1; SigOk 2] [LaneOk 7 10 12 5 99; LaneOk 8 1 2 6 98]%N)) in
+  let prev := mkOutcome T_selected [] [] [] 0 [] (4, 1)%N in
+  let out rs := mkOutcome T_generated [] rs [] 0 [1; 2]%N (4, 1)%N in
+  let r7 := (7, (10, 12), 5, 99)%N in let r8 := (8, (1, 2), 6, 98)%N in
+  build_ok_before (3, 256, prev, q, Some c)%N (out [r8; r7]) = true /\
+  build_ok (3, 256, prev, q, Some c)%N (out [r8; r7]) = false /\
+  ~ KSorted root_chain (o_roots (out [r8; r7])) /\
+  build_ok_before (3, 256, prev, q, Some c)%N (out [r7; r7; r8]) = true /\
+  build_ok (3, 256, prev, q, Some c)%N (out [r7; r7; r8]) = false /\
+  build_ok (3, 256, prev, q, Some c)%N (out [r7; r8]) = true /\
+  build_model (3, 256, prev, q, Some c)%N = out [r7; r8].
+Proof. exact build_ok_before_weak. Qed.
+Print Assumptions C05_judge_build_before_weak.
 
 (* obs (Observation with a recording crypto oracle): C05_observe_requires_bundle (without init <> 2, chain_known), C05_no_bundle_elsewhere, C05_refused_observation_empty, C05_roots_observed_only_when_building, C05_retry_round_inert on the implementation's answer *)
 Theorem C05_judge_obs_model_passes : forall i, obs_ok i (obs_model i) = true.
